@@ -34,7 +34,7 @@ def table_check(ctx, rule, I):
         from ..normflow import ALSO
         extra = [SPEC[r] for r in ALSO.get(row, [])]
         ok = SPEC[row] in outs and all(o == SPEC[row] or o in extra for o in outs)
-        ctx.check(ok, rule, "OperandsParser._process_operand_elem", f"class[{cls}] -> {outs or raises} (expected {row})"[:260],
+        ctx.check(ok, rule, "OperandsParser.parse (one operand)", f"class[{cls}] -> {outs or raises} (expected {row})"[:260],
                   f"operand class [{cls}] is rewritten as row {row}: {SPEC[row]}")
     return n
 
